@@ -8,7 +8,7 @@ class C10(Spec):
     lean_deps = ("C09",)
     required_theorems = (
         "C10.single_op_per_key_refines", "C10.single_op_per_key_keeps_shape", "C10.listIndex_exact",
-        "C10.multi_op_refines_partial",
+        "C10.multi_op_refines_partial", "C10.multi_op_keeps_shape", "C10.multi_save_refines",
         "C10J.join_single_op_refines_partial", "C10J.join_single_op_refines_full_false",
         "C10J.join_batch_refines_full_false",
         "C10.multi_op_refines_full_false_a", "C10.multi_op_refines_full_false_b", "C10.old_del_leaves_stale_index",
@@ -32,7 +32,10 @@ class C10(Spec):
     level_note = ("Row.Encode/DecodeRow/protobuf round trip is treated as the identity on rows (checked by reading rows back); "
                   "primary keys without the '-' separator; index values of fixed width for lookup exactness; join tables: model of "
                   "join.go tied differentially; theorem for one buffered left-table operation per save (foreign key kept), "
-                  "right-table batches only refuted/ tied, not proved.")
+                  "right-table batches only refuted/ tied, not proved. "
+                  "ListIndex theorem covers the equality lookup (pfx = value, no start key, count 0, both directions); paging "
+                        "(count, continuation by primary key), pfx = nil and listPrimary are modelled and covered by the differential run "
+                        "and the in-harness predicate only (no theorem).")
     def runs(self, tier, seed):
         # second run: join tables (Model/C10Join.lean)
         return [dict(env={}), dict(env={"VERIF_C10_MODE": "join"})]
@@ -41,6 +44,8 @@ class C10(Spec):
         "goleveldb/memdb behave as an ordered map with range iterators (C06)",
         "Row.Encode / DecodeRow / proto round trip is the identity on rows",
         "primary keys are non-empty and contain no '-'; index values have a fixed width in the lookup-exactness theorem",
+        "Query.ListIndex with count/continuation key, nil prefix, and listPrimary: tie + predicate only, no theorem",
+        "primary keys are non-empty (besides separator-free) in the multi-operation and history theorems",
         "join tables: Go iterates left.rowmap (a map) in mergeCache; kv lists of join saves are compared sorted by key",
         "join theorem covers one buffered left-table operation per save with the foreign key kept (S-C10d) on a db that "
         "encodes the maps (JRep); saveRight's loop is covered by the tie and by the refuting witness only",
